@@ -657,3 +657,79 @@ func r118CallerSizes(c *Ctx) {
 		})
 	}
 }
+
+// ---- R128: the names of a frame's columns are distinct ----
+
+func init() {
+	register(&Rule{ID: "R128", Name: "NAME-UNIQUE", Floor: 3,
+		Text: "a frame never holds two columns of one name: in the root package every loop that enters columns into a name map (map[string]namedColumn) under a key taken from a list of names (the elements of a []string: a ColumnOrder, the names requested from Select, the key columns of a Grouper) rejects a name that is already in the map - a comma-ok lookup of the same key in the same map whose hit edge returns an errored frame dominates the insertion - or takes its keys from a range over a map (distinct by construction). Otherwise a name given twice yields a frame whose column list has two entries and whose name map one: ColumnNames shows [A A], the column the caller left out is lost without an error, and later operations on A address only one of the two",
+		Run:  runR128})
+}
+
+func runR128(c *Ctx) {
+	p := c.P
+	n := 0
+	for _, fn := range p.FuncsIn("") {
+		loops := loopsOf(fn)
+		if len(loops) == 0 {
+			continue
+		}
+		eachInstr(fn, func(in ssa.Instruction) {
+			mu, ok := in.(*ssa.MapUpdate)
+			if !ok || !isNamedColumnContainer(p, mu.Map.Type()) {
+				return
+			}
+			var li *loopInfo
+			for i := range loops {
+				if inLoop(loops[i], mu.Block()) {
+					li = &loops[i]
+				}
+			}
+			if li == nil {
+				return
+			}
+			n++
+			key := fname(fn) + "|name map insertion"
+			pos := p.instrPos(mu)
+			// where does the key come from?
+			k := stripConv(mu.Key)
+			// (a) range over a map: key is Extract #1 of a Next on a map range
+			if ex, ok := k.(*ssa.Extract); ok {
+				if nx, ok := ex.Tuple.(*ssa.Next); ok && !nx.IsString {
+					c.okTrivial(key, pos, "keys come from a range over a map: distinct by construction")
+					return
+				}
+			}
+			// (b) the name field of an element of an existing frame container
+			if fld, _ := fieldOf(k); fld != nil {
+				if owner, ok := fieldOwner(k); ok && owner == "namedColumn" {
+					c.okTrivial(key, pos, "keys are the names of the columns of an existing frame")
+					return
+				}
+			}
+			// (c) a dominating comma-ok lookup of the same key in the same map whose hit edge leaves the loop with an error
+			guarded := false
+			for _, g := range dominatingGuards(mu.Block()) {
+				ex, ok := g.Cond.(*ssa.Extract)
+				if !ok || ex.Index != 1 || g.Val {
+					continue
+				}
+				lk, ok := ex.Tuple.(*ssa.Lookup)
+				if !ok || !lk.CommaOk || accessPath(lk.X) != accessPath(mu.Map) && lk.X != mu.Map {
+					continue
+				}
+				if stripConv(lk.Index) == k || accessPath(lk.Index) == accessPath(k) {
+					guarded = true
+				}
+			}
+			if guarded {
+				c.ok(key, pos, "a name that is already in the map is rejected before the insertion")
+				return
+			}
+			c.bad(key, pos, fmt.Sprintf("columns are entered into the name map under keys taken from a caller-supplied list (%s) without a test that the name is not in the map yet: a name given twice produces a frame with two list entries and one map entry (ColumnNames [A A]); a column the caller forgot instead is silently lost", describe(k)))
+		})
+	}
+	if n == 0 {
+		c.undecided("qframe|name map insertions", "-", "no insertion into a map[string]namedColumn inside a loop found")
+	}
+}
